@@ -304,6 +304,8 @@ PPL::Grid::remove_space_dimensions(const Variables_Set& vars) {
   }
 
   gen_sys.remove_space_dimensions(vars);
+  // Lines and parameters along the removed dimensions only are now null.
+  gen_sys.remove_invalid_lines_and_parameters();
 
   clear_congruences_up_to_date();
   clear_generators_minimized();
@@ -348,6 +350,10 @@ PPL::Grid::remove_higher_space_dimensions(const dimension_type new_dimension) {
   // Favor the generators, as is done by is_empty().
   if (generators_are_up_to_date()) {
     gen_sys.set_space_dimension(new_dimension);
+    if (!generators_are_minimized()) {
+      // Lines and parameters along the removed dimensions only are now null.
+      gen_sys.remove_invalid_lines_and_parameters();
+    }
     if (generators_are_minimized()) {
       // Count the actual number of rows that are now redundant.
       dimension_type num_redundant = 0;
